@@ -180,6 +180,10 @@ int usim_pthread_sigmask(int how, const sigset_t *set, sigset_t *old)
 
 	if (!IN_SIM)
 		return 0;
+	/* a signal may arrive right before the mask changes (still under the old mask) */
+	me->accs++;
+	if (me->accs >= me->next_sig_acc)
+		rt_signal_check(me);
 	me->accs++;
 	if (old) {
 		sigemptyset(old);
